@@ -443,6 +443,10 @@ def attr(base, name):
     a = base.single_atom() if isinstance(base, Poly) else None
     if a is None:
         a = ('val', base)
+    # a converted / copied array has the shape of the original
+    while name in ('shape', 'ndim', 'size') and a[0] == 'app' and a[1] in ('cast', 'm:astype', 'copy', 'm:copy') and a[2] \
+            and isinstance(a[2][0], Poly) and a[2][0].single_atom() is not None:
+        a = a[2][0].single_atom()
     return Poly.atom(('attr', a, name))
 
 
@@ -731,6 +735,26 @@ def strip_apps(v, names=('copy', 'cast', 'deepcopy', 'shallowcopy', 'm:copy')):
         mapping = {}
         for a in value_atoms(v):
             if a[0] == 'app' and a[1] in names and a[2] and isinstance(a[2][0], (Poly, Tup)):
+                mapping[a] = a[2][0]
+        if not mapping:
+            return v
+        v = subst_value(v, mapping)
+    return v
+
+
+FLOAT_KINDS = ("('builtin', 'float')", "('builtin', 'complex')", "'float'", "'float64'", "'complex'", "'complex128'",
+               "('ext', 'numpy.float64')", "('ext', 'numpy.double')", "('ext', 'numpy.complex128')", "('ext', 'numpy.float_')",
+               "('ext', 'numpy.longdouble')")
+
+
+def unwiden(v):
+    """v with conversions to (double) floating point removed: they keep every value, so a rule about values may look
+    through them (rules about the *type* of an array must not use this)"""
+    for _ in range(8):
+        mapping = {}
+        for a in value_atoms(v):
+            if a[0] == 'app' and a[1] in ('cast', 'm:astype') and len(a[2]) > 1 and isinstance(a[2][0], (Poly, Tup)) \
+                    and repr(a[2][1]) in FLOAT_KINDS:
                 mapping[a] = a[2][0]
         if not mapping:
             return v
